@@ -289,6 +289,8 @@ pub fn stroke_to_path(path: &Path, style: &StrokeStyle) -> Path {
     let mut last_normal = Vector::zero();
     let half_width = style.width / 2.;
     let mut start_point = None;
+    // where the current subpath began: Close returns there even if no segment had a direction
+    let mut first_pt = None;
     for op in &path.ops {
         match *op {
             PathOp::MoveTo(pt) => {
@@ -300,10 +302,12 @@ pub fn stroke_to_path(path: &Path, style: &StrokeStyle) -> Path {
                 }
                 start_point = None;
                 cur_pt = Some(pt);
+                first_pt = Some(pt);
             }
             PathOp::LineTo(pt) => {
                 if cur_pt.is_none() {
                     start_point = None;
+                    first_pt = Some(pt);
                 } else if let Some(cur_pt) = cur_pt {
                     if let Some(normal) = compute_normal(cur_pt, pt) {
                         if start_point.is_none() {
@@ -374,7 +378,7 @@ pub fn stroke_to_path(path: &Path, style: &StrokeStyle) -> Path {
                         join_line(&mut stroked_path, style, end_point, last_normal, start_normal);
                     }
                 }
-                cur_pt = start_point.map(|x| x.0);
+                cur_pt = first_pt;
                 start_point = None;
             }
             PathOp::QuadTo(..) => panic!("Only flat paths handled"),
